@@ -13,7 +13,7 @@ Proof. unfold mem_N. intros H. apply existsb_exists in H as [y [Hy E]]. apply N.
 
 Definition ogsym_eqb (a : option gsym) (b : gsym) : bool := match a with Some x => gsym_eqb x b | None => false end.
 
-(* the value type of a nonterminal: the variant pushed by its productions *)
+(* the value type of a nonterminal, first approximation: the __Symbol variant pushed by its productions *)
 Definition nt_variant (nt : N) : option nat :=
   (fix go (ps : list (nat * N * N * N)) (ts : list (list nat * option nat)) : option nat :=
      match ps, ts with
@@ -21,9 +21,68 @@ Definition nt_variant (nt : N) : option nat :=
          if N.eqb n nt && negb (N.eqb kind 2) then push else go ps' ts'
      | _, _ => None
      end) gen_productions gen_prod_types.
-Definition nt_type (nt : N) : vty := match nt_variant nt with Some v => nth v gen_variants TBot | None => TBot end.
-Definition sym_type (X : gsym) : vty :=
-  match X with ST c => TTokOf c | SErr => TErr | SNT n => nt_type n end.
+Definition nt_type0 (nt : N) : vty := match nt_variant nt with Some v => nth v gen_variants TBot | None => TBot end.
+
+Definition rhs_of (p : N) : list gsym := nth (N.to_nat p) gen_prod_rhs [].
+
+(* ... refined by running the action analysis to a fixpoint: a nonterminal's type is the join of what its productions'
+   actions return on the current types of their right-hand sides (so IDENT-ness, dotted names, ... flow through the
+   synthetic nonterminals for `X?`, `X*`, `(X ".")+`).  The result is only a candidate: check_typed below verifies it. *)
+Fixpoint join (a b : vty) {struct a} : option vty :=
+  match a, b with
+  | TBot, t => Some t
+  | t, TBot => Some t
+  | TTok, TTok | TTok, TTokOf _ | TTokOf _, TTok => Some TTok
+  | TTokOf c, TTokOf d => Some (if N.eqb c d then TTokOf c else TTok)
+  | TLoc, TLoc => Some TLoc
+  | TString, TString | TString, TQName | TQName, TString => Some TString
+  | TQName, TQName => Some TQName
+  | TErr, TErr => Some TErr
+  | TKV, TKV => Some TKV
+  | TOpt x, TOpt y | TOpt x, TLoud y | TLoud x, TOpt y => option_map TOpt (join x y)
+  | TLoud x, TLoud y => option_map TLoud (join x y)
+  | TVec x, TVec y => option_map TVec (join x y)
+  | TTuple xs, TTuple ys =>
+      option_map TTuple
+        ((fix go (xs ys : list vty) : option (list vty) :=
+            match xs, ys with
+            | [], [] => Some []
+            | x :: xs', y :: ys' => match join x y, go xs' ys' with Some z, Some r => Some (z :: r) | _, _ => None end
+            | _, _ => None
+            end) xs ys)
+  | TAst n, TAst m => if String.eqb n m then Some (TAst n) else None
+  | _, _ => None
+  end.
+
+Definition sym_type_with (T : list vty) (X : gsym) : vty :=
+  match X with ST c => TTokOf c | SErr => TErr | SNT n => nth (N.to_nat n) T TBot end.
+
+Definition is_bot (t : vty) : bool := match t with TBot => true | _ => false end.
+
+(* ascending from "no value yet" (TBot): a production contributes once all its right-hand side symbols have a type *)
+Definition refine_nt (T : list vty) (nt : N) : vty :=
+  let r := fold_left (fun (acc : option vty) '(i, (_, n, act, kind)) =>
+             if N.eqb n nt && negb (N.eqb kind 2) then
+               let args := map (sym_type_with T) (rhs_of (N.of_nat i)) in
+               if existsb is_bot args then acc
+               else match acc, ainfer user_sig gen_actions action_fuel act args with
+                    | Some a, Some t => join a t
+                    | _, _ => None
+                    end
+             else acc) (combine (seq 0 (length gen_productions)) gen_productions) (Some TBot) in
+  match r with None => nt_type0 nt | Some t => t end.
+
+Definition nnt_all : nat := S (fold_left (fun m '(_, n, _, _) => Nat.max m (N.to_nat n)) gen_productions gen_nnt).
+Definition all_nts : list N := map N.of_nat (seq 0 nnt_all).
+Definition refine_all (T : list vty) : list vty := map (refine_nt T) all_nts.
+Fixpoint iterate {A} (n : nat) (f : A -> A) (x : A) : A := match n with O => x | S n' => iterate n' f (f x) end.
+
+Definition nt_types : list vty :=
+  Eval vm_compute in
+    map (fun '(t, nt) => if is_bot t then nt_type0 nt else t)
+        (combine (iterate 24 refine_all (map (fun _ => TBot) all_nts)) all_nts).
+Definition nt_type (nt : N) : vty := nth (N.to_nat nt) nt_types TBot.
+Definition sym_type (X : gsym) : vty := sym_type_with nt_types X.
 
 Definition all_states : list N := map N.of_nat (seq 0 gen_nstates).
 Definition all_cols : list nat := seq 0 gen_ncols.
@@ -40,8 +99,6 @@ Definition check_shifts : bool := forallb (fun s => forallb (shift_ok s) all_col
 (* ---- C2: reductions ---- *)
 Fixpoint back (j : nat) (l : list N) : list N :=
   match j with O => l | S j' => back j' (nodup N.eq_dec (flat_map preds l)) end.
-
-Definition rhs_of (p : N) : list gsym := nth (N.to_nat p) gen_prod_rhs [].
 
 (* in state s, production p may be reduced: the k states on top are accessed by the right-hand side, and the goto
    from every state that can be uncovered is a listed edge into a state accessed by the nonterminal *)
@@ -75,7 +132,7 @@ Definition check_misc : bool :=
 Definition prod_typed (p : N) : bool :=
   let '(k, nt, act, kind) := production p in
   match ainfer user_sig gen_actions action_fuel act (map sym_type (rhs_of p)) with
-  | Some t => sub t (if N.eqb kind 2 then TOpt (TAst "Aidl") else nt_type nt)
+  | Some t => sub t (if N.eqb kind 2 then TLoud (TAst "Aidl") else nt_type nt)
   | None => false
   end.
 Definition check_typed : bool := forallb prod_typed (map N.of_nat (seq 0 (length gen_productions))).
